@@ -52,9 +52,9 @@ pub fn expr_into_metadatum(
     expr: &tir::Expression,
 ) -> Result<pallas::ledger::primitives::alonzo::Metadatum, Error> {
     match expr {
-        tir::Expression::Number(x) => Ok(pallas::ledger::primitives::alonzo::Metadatum::Int(
-            Int::from(*x as i64),
-        )),
+        tir::Expression::Number(x) => Int::try_from(*x)
+            .map(pallas::ledger::primitives::alonzo::Metadatum::Int)
+            .map_err(|_| Error::CoerceError(x.to_string(), "Metadatum integer".to_string())),
         tir::Expression::String(x) => Ok(pallas::ledger::primitives::alonzo::Metadatum::Text(
             x.clone(),
         )),
